@@ -480,10 +480,57 @@ def isolation(run, start, count):
                           dict(config=M.render(cfg, 0), other_contexts=others, differs=diff))
 
 
+def reconfigured(run):
+    """a context that gains (or loses) a scheme taking a context keyword through update()/load(): calls that carry the keyword
+    behave as on a context built in one go with the same final configuration"""
+    from passlib.context import CryptContext
+    import passlib.hash as PH
+    md5 = PH.md5_crypt.hash(PW)
+    for kwscheme in ("postgres_md5", "oracle10", "msdcc2", "cisco_pix"):
+        target = dict(schemes=["md5_crypt", kwscheme], deprecated=["md5_crypt"] if kwscheme != "cisco_pix" else [])
+        for how in ("update", "load", "copy", "update-then-back"):
+            ctx = CryptContext(schemes=["md5_crypt"])
+            ctx.verify(PW, md5)                       # used before the change
+            try:
+                if how == "update":
+                    ctx.update(**target)
+                elif how == "load":
+                    ctx.load(target)
+                elif how == "copy":
+                    ctx = ctx.copy(**target)
+                else:
+                    ctx.update(**target)
+                    ctx.update(schemes=["md5_crypt"], deprecated=[])
+                    ctx.update(**target)
+                fresh = CryptContext(**ctx.to_dict())
+                res = []
+                for c in (ctx, fresh):
+                    out = []
+                    for label, fn in (("verify-with-user", lambda: c.verify(PW, md5, user="bob")), ("verify_and_update-with-user", lambda: c.verify_and_update(PW, md5, user="bob")[0]),
+                                      ("needs_update", lambda: c.needs_update(md5)), ("hash-with-user", lambda: c.identify(c.hash(PW, user="bob"))),
+                                      ("verify-own", lambda: c.verify(PW, c.hash(PW, user="bob"), user="bob"))):
+                        try:
+                            out.append((label, fn()))
+                        except Exception as e:
+                            out.append((label, "EXC:" + type(e).__name__))
+                    res.append(out)
+            except Exception as e:
+                run.violation(f"C04|reconfigured|{how}|raises|{type(e).__name__}", f"{how} to {target} raised {type(e).__name__}: {str(e)[:80]}", dict(target=target, how=how))
+                continue
+            run.count("reconfigured_cases")
+            run.case(("reconfigured", kwscheme, how), dict(target=target, how=how, answers=[list(map(str, x)) for x in res[0]]))
+            if res[0] != res[1] or res[0][0][1] is not True:
+                diff = [(a, b) for a, b in zip(res[0], res[1]) if a != b] or res[0][:1]
+                run.violation(f"C04|reconfigured|{how}|differs-from-fresh-context", f"a context brought to {target} by {how} answers {diff[0][0]} where a context built afresh from its export answers {diff[0][1] if len(diff[0]) > 1 else ''}",
+                              dict(target=target, how=how, reconfigured=[list(map(str, x)) for x in res[0]], fresh=[list(map(str, x)) for x in res[1]]))
+
+
 def body(run):
     total = 320 if run.tier == "quick" else 6400
     per = total // 16
     run.parallel("checks.c04", "work", [dict(start=i * per, count=per) for i in range(16)], timeout=900 if run.tier == "quick" else 5400)
+    reconfigured(run)
+    run.require("reconfigured_cases", 12)
     niso = 48 if run.tier == "quick" else 960
     run.parallel("checks.c04", "isolation", [dict(start=90000 + i * (niso // 16), count=niso // 16) for i in range(16)], timeout=900 if run.tier == "quick" else 3600)
     run.require("isolation_cases", niso // 3)
